@@ -546,6 +546,8 @@ def check_project(proj, outside, m, host, mode, token, counters, viol, sigs, run
             if mode == "none-E":
                 # documented exception: whole host environment preserved; declared variables still must have their values
                 for k, v in want.items():
+                    if k in e["weak"][kind]:
+                        continue        # weak variables: the value of any merged instance (or the preserved host value) may show up
                     counters["variables_compared"] += 1
                     if obs.get(k) != v:
                         viol.append(violation("declared-variable-has-wrong-value", dict(ctx, variable=k, expected=v, observed=obs.get(k), value_class=m["vclass"].get(v))))
